@@ -66,6 +66,17 @@ def float_sort(ty):
 RNE = z3.RNE()
 
 
+class CandModel:
+    """assignment found by candidate evaluation; mimics z3 ModelRef.eval"""
+
+    def __init__(self, byid, subs):
+        self.byid = byid
+        self.subs = subs
+
+    def eval(self, e, model_completion=True):
+        return z3.simplify(z3.substitute(e, *self.subs))
+
+
 class Interp:
     def __init__(self, prog, src, cfg):
         self.prog = prog
@@ -74,7 +85,11 @@ class Interp:
         self.solver = z3.Solver()
         self.solver.set('timeout', int(cfg.get('query_timeout_ms', 10000)))
         self.model = None
-        self.model_dirty = True
+        self.pc = []
+        self.lits = {}
+        self.unproven = 0
+        self.fp_arith = False
+        self.cand_model = None
         self.inputs = []          # [(name, kind, bits, z3expr or concrete)]
         self.decisions = []
         self.obs = []
@@ -131,39 +146,117 @@ class Interp:
 
     # ------------------------------------------------------------------ solver helpers
 
-    def check(self, extra=None):
+    def check(self, extra=None, soft=False, timeout_ms=None):
+        """sat? -> True/False; on solver timeout: PathEnd('inconclusive') unless soft (then None).
+        A timeout is first retried by candidate evaluation (model finding by substitution)."""
         if time.time() > self.deadline:
             raise PathEnd('timeout', 'harness deadline reached')
         t0 = time.time()
         self.queries += 1
+        self.cand_model = None
+        if self.fp_arith:
+            m = self.try_candidates(extra, tries=120)
+            if m is not None:
+                self.cand_model = m
+                self.solver_s += time.time() - t0
+                return True
+        self.solver.set('timeout', int(timeout_ms or self.cfg.get('query_timeout_ms', 10000)))
         r = self.solver.check(extra) if extra is not None else self.solver.check()
         self.solver_s += time.time() - t0
         if r == z3.unknown:
+            m = self.try_candidates(extra)
+            if m is not None:
+                self.cand_model = m
+                return True
+            if soft:
+                return None
             raise PathEnd('inconclusive', 'solver returned unknown: %s' % self.solver.reason_unknown())
         return r == z3.sat
 
+    def last_model(self):
+        """model of the last successful check (solver model or candidate assignment)"""
+        if self.cand_model is not None:
+            return self.cand_model
+        return self.solver.model()
+
+    CAND_FP = [1.0, -1.0, 2.0, -2.0, 0.5, -0.5, 3.0, -7.25, 1e-6, -1e-6, 1e6, -1e6, 0.0, 1234.5678, -0.001, 100.0]
+    CAND_BV = [0, 1, 2, 3, 7, 10, 34, 47, 92, 127, 128, 255, 256, 65535, 2 ** 31 - 1, 2 ** 31, 2 ** 32 - 1, 2 ** 63, 2 ** 64 - 1]
+
+    def try_candidates(self, extra, tries=300):
+        """model finding by evaluating the path condition (+extra) under candidate assignments; every hit is a genuine model"""
+        import random
+        rnd = random.Random(len(self.pc) * 7919 + len(self.inputs))
+        vars_ = [(n, k, b, e) for (n, k, b, e) in self.inputs if not isinstance(e, int)]
+        if not vars_ or len(vars_) > 24:
+            return None
+        conj = list(self.pc)
+        if extra is not None:
+            conj.append(extra)
+        if not conj:
+            return None
+        goal = z3.And(*conj) if len(conj) > 1 else conj[0]
+        t_end = time.time() + 5
+        for t in range(tries):
+            if time.time() > t_end:
+                break
+            subs = []
+            for (n, k, b, e) in vars_:
+                if k == 'f64':
+                    v = z3.FPVal(rnd.choice(self.CAND_FP), z3.Float64())
+                elif k == 'bool':
+                    v = z3.BoolVal(rnd.random() < 0.5)
+                else:
+                    c = rnd.choice(self.CAND_BV) if rnd.random() < 0.7 else rnd.getrandbits(b)
+                    v = z3.BitVecVal(c & ((1 << b) - 1), b)
+                subs.append((e, v))
+            try:
+                r = z3.simplify(z3.substitute(goal, *subs))
+            except z3.Z3Exception:
+                return None
+            if z3.is_true(r):
+                return CandModel(dict((e.get_id(), v) for e, v in subs), subs)
+        return None
+
     def get_model(self):
         if self.model is None:
-            if not self.check():
+            r = self.check()
+            if not r:
                 raise PathEnd('infeasible', 'path condition unsatisfiable')
-            self.model = self.solver.model()
+            self.model = self.last_model()
         return self.model
 
     def add(self, e):
         self.solver.add(e)
+        self.pc.append(e)
+        self.lits[e.get_id()] = True
+        if z3.is_not(e):
+            self.lits[e.arg(0).get_id()] = False
+
+    def lit_value(self, e):
+        v = self.lits.get(e.get_id())
+        if v is not None:
+            return v
+        if z3.is_not(e):
+            v = self.lits.get(e.arg(0).get_id())
+            if v is not None:
+                return not v
+        return None
 
     def eval_bool_in_model(self, e):
+        if self.model is None and self.unproven:
+            return None
         m = self.get_model()
         v = m.eval(e, model_completion=True)
         if z3.is_true(v):
             return True
         if z3.is_false(v):
             return False
-        # fall back to a query
         return None
 
     def decide(self, cond):
-        """Turn a (possibly symbolic) bool into a python bool, forking when both sides are feasible."""
+        """Turn a (possibly symbolic) bool into a python bool, forking when both sides are feasible.
+        If the solver cannot decide feasibility within the (short) feasibility timeout, both sides are explored
+        without proof (an over-approximation of the feasible paths: sound for 'no violation found')."""
         if cond is True or cond is False:
             return cond
         if type(cond) is not Sym:
@@ -175,15 +268,42 @@ class Interp:
             return True
         if z3.is_false(e):
             return False
+        lv = self.lit_value(e)
+        if lv is not None:
+            return lv
+        ft = int(self.cfg.get('feas_timeout_ms', 3000))
+        hard = False
         mv = self.eval_bool_in_model(e)
         if mv is None:
-            mv = self.check(e)
-            if mv:
-                self.model = self.solver.model()
-        other = z3.Not(e) if mv else e
-        if not self.check(other):
-            return mv
-        m2 = self.solver.model()
+            r1 = self.check(e, soft=True, timeout_ms=ft)
+            if r1 is None:
+                hard = True
+            elif r1:
+                self.model = self.last_model()
+                mv = True
+            else:
+                return False
+        m2 = None
+        if not hard:
+            other = z3.Not(e) if mv else e
+            r2 = self.check(other, soft=True, timeout_ms=ft)
+            if r2 is None:
+                hard = True
+            elif not r2:
+                return mv
+            else:
+                m2 = self.last_model()
+        if hard:
+            self.unproven += 1
+            if self.fork():
+                self.add(z3.Not(e))
+                self.model = None
+                self.decisions.append(0)
+                return False
+            self.add(e)
+            self.model = None
+            self.decisions.append(1)
+            return True
         # both sides feasible -> fork
         if self.fork():
             self.add(other)
@@ -204,7 +324,8 @@ class Interp:
         mv = self.eval_bool_in_model(e)
         if mv:
             return True
-        return self.check(e)
+        r = self.check(e, soft=True)
+        return bool(r)
 
     def assume(self, cond):
         if cond is True:
@@ -220,7 +341,7 @@ class Interp:
         if not mv:
             if not self.check(e):
                 raise PathEnd('assume_false')
-            self.model = self.solver.model()
+            self.model = self.last_model()
         self.add(e)
 
     def concretize(self, v, bits=64, limit=300, what='value'):
@@ -237,7 +358,7 @@ class Interp:
             ne = e != z3.BitVecVal(val, e.size())
             if not self.check(ne):
                 return val
-            m2 = self.solver.model()
+            m2 = self.last_model()
             n += 1
             if n > limit:
                 raise PathEnd('inconclusive', 'too many feasible values while concretising %s' % what)
@@ -282,11 +403,17 @@ class Interp:
         rec = {
             'status': status, 'detail': str(detail)[:2000], 'steps': self.steps, 'queries': self.queries,
             'solver_s': round(self.solver_s, 4), 'depth': self.depth, 'nsym': self.nsym,
-            'violations': self.violations, 'covers': self.covers, 'ndec': len(self.decisions),
+            'violations': self.violations, 'covers': self.covers, 'ndec': len(self.decisions), 'unproven': self.unproven,
         }
         want_inputs = status in ('ok', 'panic', 'violation', 'steplimit') or self.violations
         if want_inputs:
             try:
+                if self.model is None:
+                    r = self.check(None, soft=True, timeout_ms=int(self.cfg.get('feas_timeout_ms', 3000)))
+                    if r:
+                        self.model = self.last_model()
+                    else:
+                        raise Exception('no model for this path (solver gave up)')
                 rec['inputs'] = self.input_vector()
                 rec['obs'] = self.eval_obs()
             except Exception as ex:
@@ -356,7 +483,7 @@ class Interp:
         if extra_cond is not None:
             if not self.check(extra_cond):
                 return False
-            model = self.solver.model()
+            model = self.last_model()
         where = ' <- '.join(reversed(self.callstack[-6:]))
         v = {'kind': kind, 'msg': msg[:300], 'where': where}
         try:
@@ -365,6 +492,25 @@ class Interp:
             v['inputs_error'] = str(ex)
         self.violations.append(v)
         return True
+
+    def require(self, good, kind, msg, end_status='panic'):
+        """`good` (z3 Bool) must hold: report a violation if it can fail, then continue on the side where it holds"""
+        good = z3.simplify(good)
+        if z3.is_true(good):
+            return
+        lv = self.lit_value(good)
+        if lv is True:
+            return
+        if z3.is_false(good) or lv is False:
+            self.report(kind, msg)
+            raise PathEnd(end_status, msg)
+        if self.report(kind, msg, z3.Not(good)):
+            self.model = None
+        r = self.check(good)
+        if not r:
+            raise PathEnd(end_status, msg)
+        self.model = self.last_model()
+        self.add(good)
 
     # ------------------------------------------------------------------ symbols
 
@@ -769,6 +915,8 @@ class Interp:
             if not sa and not sb:
                 return self.binop_float_concrete(op, a, b, ty)
             x, y = self.to_fp(a, ty), self.to_fp(b, ty)
+            if op in ('Add', 'Sub', 'Mul', 'Div'):
+                self.fp_arith = True
             if op == 'Add':
                 return Sym(z3.fpAdd(RNE, x, y))
             if op == 'Sub':
@@ -1223,14 +1371,7 @@ class Interp:
                 raise PathEnd('panic', st.c)
             return
         good = z3.Not(c.e) if neg else c.e
-        bad = z3.Not(good)
-        if self.report('panic', 'MIR assert can fail: %s in %s' % (st.c, fr.name), bad):
-            self.model = None
-        # continue on the non-panicking side
-        if not self.check(good):
-            raise PathEnd('panic', st.c)
-        self.model = self.solver.model()
-        self.add(good)
+        self.require(good, 'panic', 'MIR assert can fail: %s in %s' % (st.c, fr.name))
 
     # ------------------------------------------------------------------ calls
 
